@@ -241,6 +241,24 @@ func Run(r *fw.Run) {
 	}
 	r.Merge(l)
 
+	// dense length sweep: a path element, a domain label and a major-version number of every length 0..DenseMax
+	{
+		dslots := []struct {
+			pre, post string
+			c         byte
+		}{{"a.b/", "", 'a'}, {"", ".com/x", 'd'}, {"a.b/x/", "/y", 'e'}, {"a.b/c/v", "", '7'}, {"gopkg.in/x.v", "", '3'}, {"a.b/c", ".", 'f'}, {"a.b/CON", "", 'g'}, {"a.b/x~", "", '1'}}
+		r.Bounds["dense_length_sweep"] = fmt.Sprintf("%d slots x every fill length 0..%d", len(dslots), enum.DenseMax)
+		fw.Parallel(len(dslots), func(i int) {
+			l := fw.NewLocal()
+			defer r.Merge(l)
+			enum.EachLength(dslots[i].c, enum.DenseMax, func(f string) {
+				l.States++
+				l.Transitions++
+				checkPath(r, l, dslots[i].pre+f+dslots[i].post)
+			})
+		})
+	}
+
 	// (c) element-level: 1..3 elements
 	depth := 3
 	var paths []string
